@@ -140,6 +140,11 @@ fn c02_after(ctx: &Ctx, prog: &Program, i: usize, r: &StepResult, model: &Model,
             return Err(format!("returned address {sri} is not the {} digest of the data", algo.name()));
         }
     }
+    if !(w.integ == IntegDecl::None || w.integ == IntegDecl::Correct) {
+        // a declared multi-hash integrity is returned (and recorded) as declared; how such an
+        // entry resolves is the model's business (sweeps), not part of C02's statement
+        return Ok(());
+    }
     let want = crate::exec::bytes_out(&data);
     let integ: cacache::Integrity = sri.parse().map_err(|e| format!("returned address does not parse: {e}"))?;
     let cache = &ctx.cache;
